@@ -406,6 +406,14 @@ func checkConvertWalksFaithfulClone(p *core.Program, r *core.Report, rule string
 		}
 		return true
 	}
+	// exempt as well: the pruning pass of C20-F8 - removals of elements taken from the list of all
+	// elements of the clone, reachable only when SkipUnlikelies is set (what that pass removes is
+	// C20's obligation; a table inside an unlikely subtree never reached the classifier before either)
+	cutSet, _ := core.CutAtoms(p, conv, regexp.MustCompile(`^\(\$0\.‹converter\.ConverterFlag› & converter\.SkipUnlikelies\) == converter\.Default$`), false)
+	pruning := func(in ssa.Instruction, v string) bool {
+		q := "dom.GetElementsByTagName(" + clone + `,"*")`
+		return strings.Count(v, clone) == strings.Count(v, q) && core.IsCallTo(in, removalKeys...) && !core.InstrReachable(conv, cutSet, in)
+	}
 	var hits []string
 	for _, in := range instrsOf(conv) {
 		switch x := in.(type) {
@@ -414,7 +422,7 @@ func checkConvertWalksFaithfulClone(p *core.Program, r *core.Report, rule string
 				continue
 			}
 			for _, a := range x.Common().Args {
-				if v := c.Of(a); strings.Contains(v, clone) && !confined(v) {
+				if v := c.Of(a); strings.Contains(v, clone) && !confined(v) && !pruning(in, v) {
 					hits = append(hits, fmt.Sprintf("%s at %s", core.Callee(x).Name(), p.Pos(in.Pos())))
 					break
 				}
